@@ -74,6 +74,11 @@ def run(ctx):
     res = ctx.run_engine(binary, "TestBlockVerifyReplay", {"seed": 0, "start": 0, "behaviours": behaviours, "concurrent": True},
                          timeout=3000)
     ctx.absorb(res, "blockverify", "TestBlockVerifyReplay")
+    # concurrency-only misbehaviour is not a verdict for this property (its quantifier has no "schedules")
+    obs = res.get("stats", {}).get("observations") or []
+    for o in obs:
+        print("OBSERVATION: property=%s %s" % (ctx.prop, o), flush=True)
+    ctx.coverage["observations"] = len(obs)
     stats = res.get("stats", {})
     replayed = {tuple(c.split("@")[::-1]) for c in stats.get("covered", [])}
     ctx.coverage.pop("covered", None)
